@@ -289,7 +289,8 @@ def gen_case(rng, force=None):
     setup = [l for l in setup if l]
     setup.append("END")
     # follow-up calculations on the saved state
-    sel = ["SELECTED_OUTPUT 1", " -reset false", " -pH true", " -temperature true", " -water true", " -ionic_strength true",
+    # the comparison is at 1e-7: keep the solver's own convergence noise well below that
+    sel = ["KNOBS", " -convergence_tolerance 1e-12", "SELECTED_OUTPUT 1", " -reset false", " -pH true", " -temperature true", " -water true", " -ionic_strength true",
            " -totals Na K Ca Mg Cl S C Si Sr Ba" if db != "pitzer.dat" else " -totals Na K Ca Mg Cl S C Sr Ba"]
     if "pp" in kinds:
         sel.append(" -equilibrium_phases Calcite Gypsum Quartz Dolomite CO2(g) Halite" if db != "pitzer.dat" else " -equilibrium_phases Calcite Gypsum")
